@@ -37,22 +37,88 @@ pub fn check_case(ctx: &Ctx, tape: &[u8], cfg: &Cfg, stats: &mut Stats) -> Resul
     };
     let ret_a = CTy::Ret(Box::new(g.a.clone()));
     let decls = piece(&|pr| pr.decls());
-    let body = piece(&|pr| pr.comp(&g.body, &ret_a));
+    // leading closed lets of the body become global definitions of the enclosing block (the translation inlines
+    // references to closed globals); the rest is the body of the monadic blocks
+    let mut globals = String::new();
+    let mut n_globals = 0;
+    let mut rest: &crate::core::ast::Comp = &g.body;
+    if tape.first().map(|b| b % 2 == 0).unwrap_or(false) {
+        loop {
+            let crate::core::ast::Comp::Let(crate::core::ast::Pat::Var(b), a, v, n) = rest else { break };
+            let mut used = std::collections::BTreeSet::new();
+            crate::core::naming::uses_of_val(v, &mut used);
+            if !used.is_empty() || n_globals >= 3 {
+                break;
+            }
+            let (b, a, v) = (*b, a.clone(), v.clone());
+            let name = names.binder[b as usize].clone();
+            let ty = piece(&|pr| pr.vty(&a, 5));
+            let val = piece(&|pr| pr.val(&v, &a));
+            globals.push_str(&format!("let {name} : {ty} = {val} that\n"));
+            n_globals += 1;
+            rest = n;
+        }
+    }
+    // a direct call of the first global in a let tail — a second, different block over the same global
+    fn lit(t: &crate::core::ast::VTy) -> Option<String> {
+        use crate::core::ast::VTy;
+        Some(match t {
+            | VTy::Int(_) => "1".into(),
+            | VTy::Str => "\"s\"".into(),
+            | VTy::Char => "'c'".into(),
+            | VTy::Unit => "()".into(),
+            | VTy::Prod(items) => format!("({})", items.iter().map(lit).collect::<Option<Vec<_>>>()?.join(", ")),
+            | _ => return None,
+        })
+    }
+    let mut tail_call: Option<(String, String)> = None; // (call text, result type text)
+    if n_globals > 0 {
+        if let crate::core::ast::Comp::Let(crate::core::ast::Pat::Var(b), crate::core::ast::VTy::Thk(fty), _, _) = &g.body {
+            let mut args = vec![];
+            let mut cur: &CTy = fty;
+            let mut ok = true;
+            while let CTy::Arrow(a, rest_ty) = cur {
+                match lit(a) {
+                    | Some(l) => args.push(l),
+                    | None => ok = false,
+                }
+                cur = rest_ty;
+            }
+            if let (true, CTy::Ret(r)) = (ok, cur) {
+                if lit(r).is_some() {
+                    let name = names.binder[*b as usize].clone();
+                    let rty = piece(&|pr| pr.vty(r, 0));
+                    tail_call = Some((format!("! {name} {}", args.join(" ")), rty));
+                }
+            }
+        }
+    }
+    let body = piece(&|pr| pr.comp(rest, &ret_a));
+    let _plain_body_is_whole = n_globals == 0;
     let a_ty = piece(&|pr| pr.vty(&g.a, 5));
     let a_atom = piece(&|pr| pr.vty(&g.a, 0));
     let show = piece(&|pr| pr.comp(&g.show, &CTy::OS));
     let (r, k) = (names.binder[g.r as usize].clone(), names.binder[g.k as usize].clone());
+    let (extra_block, extra_main) = match &tail_call {
+        | Some((call, rty)) => (
+            format!("def ! translated_tail = @[monadic] begin\n( let zz : Unit = () in {call} : Ret {rty} )\nend that\n"),
+            format!("do q1 <- ( {call} : Ret {rty} ) ; do q2 <- ! translated_tail Ret {{ ! ret_monad }} ; let zq : {rty} * {rty} = ( q1 , q2 ) in\n"),
+        ),
+        | None => (String::new(), String::new()),
+    };
     let text = format!(
-        "{prelude}begin\n{decls}\
+        "{prelude}begin\n{decls}{globals}\
 def ! ret_monad : Monad Ret =\n  comatch\n  | .return A value => ret value\n  | .bind A B computation function =>\n    do value <- ! computation ;\n    ! function value\n  end\nthat\n\
 let RU (A : VType) : CType = Unit -> Ret A that\n\
 def ! reader_monad : Monad RU =\n  comatch\n  | .return A value => fn (_ : Unit) => ret value\n  | .bind A B computation function => fn (u : Unit) =>\n    do value <- ! computation u ;\n    ! function value u\n  end\nthat\n\
 def ! translated = @[monadic] begin\n( {body}\n: Ret {a_atom} )\nend that\n\
+def ! translated_again = @[monadic] begin\n( {body}\n: Ret {a_atom} )\nend that\n{extra_block}\
 let show : Thk ({a_atom} -> Thk OS -> OS) = {{ fn ({r} : {a_ty}) => fn ({k} : Thk OS) =>\n{show}\n}} that\n\
 ( do p1 <- ( {body}\n: Ret {a_atom} ) ; ! show p1 {{ ! (stdio/write_line) \"{SEP}\" {{\n\
 do p2 <- ! translated Ret {{ ! ret_monad }} ; ! show p2 {{ ! (stdio/write_line) \"{SEP}\" {{\n\
-do p3 <- ! translated RU {{ ! reader_monad }} () ; ! show p3 {{\n\
-! (process/exit) 0 }} }} }} }} }} : OS )\nend\n",
+do p3 <- ! translated RU {{ ! reader_monad }} () ; ! show p3 {{ ! (stdio/write_line) \"{SEP}\" {{\n\
+do p4 <- ! translated_again Ret {{ ! ret_monad }} ; ! show p4 {{\n\
+{extra_main}! (process/exit) 0 }} }} }} }} }} }} }} : OS )\nend\n",
         prelude = mo_prelude(ctx),
     );
     stats.eval();
@@ -108,6 +174,22 @@ do p3 <- ! translated RU {{ ! reader_monad }} () ; ! show p3 {{\n\
                 | Some(p) if p == expected => stats.count("reader-instance-agrees"),
                 | _ => stats.count("note:reader-instance-differs"),
             }
+            // a second monadic block over the same body (and the same globals) in the same program
+            let second = parts.get(3).copied();
+            if second != Some(expected.as_str()) {
+                return Err(Fail::new(
+                    "second-block-at-the-identity-instance-differs-from-plain",
+                    format!("the plain computation's result {expected:?}"),
+                    format!("{:?} (run ended {:?})", second, run.end),
+                )
+                .with(case(json!({}))));
+            }
+            if n_globals > 0 {
+                stats.count("with-global-definitions");
+            }
+            if tail_call.is_some() {
+                stats.count("with-a-third-block-calling-a-global-in-a-let-tail");
+            }
             stats.count("identity-instance-agrees");
             let f = &g.feats;
             let nontrivial = f.get("do").copied().unwrap_or(0) >= 2 && (f.contains_key("call") || f.contains_key("beta-redex")) && f.contains_key("match");
@@ -129,7 +211,7 @@ pub fn run(ctx: &Ctx) -> Report {
          thunks/force, transparent data with matches incl. nested and wildcard arms, tuples, lets, calls to let-bound \
          thunks; no host operations inside), generated type-directed with a printable result type; one program runs \
          the body plain, then `@[monadic]` at the identity monad (Ret, return = ret, bind = run then continue), then at \
-         Reader Unit; oracle: the printed result of the identity instantiation equals the plain one (which equals the \
+         Reader Unit, then a second monadic block over the same body at the identity monad; in half of the cases the leading closed lets of the body are global definitions of the enclosing block, referenced from both blocks; oracle: the printed result of the identity instantiation equals the plain one (which equals the \
          reference machine's), and no instantiation goes wrong; a block the checker refuses is a counted discard; \
          non-trivial = body with ≥ 2 do, a call or redex, and a match",
     );
